@@ -358,3 +358,36 @@ def to_term(x):
             return z3.RealVal(int(x))
         return z3.RealVal(repr(x))
     raise Unsupported(f"cannot turn {type(x).__name__} into a term")
+
+
+class MaybeNaN:
+    """a scalar that is either NaN or an integer (rlencode's last_val sentinel)"""
+    pyvc_symbolic = True
+
+    def __init__(self, isnan, val):
+        self.isnan = isnan if isinstance(isnan, z3.ExprRef) else z3.BoolVal(bool(isnan))
+        self.val = val
+
+    def pyvc_compare(self, I, op, a, b):
+        import ast as _ast
+        other = b if a is self else a
+        if isinstance(other, MaybeNaN):
+            raise Unsupported("NaN vs NaN comparison")
+        o = to_term(other)
+        if isinstance(op, _ast.NotEq):
+            return z3.Or(self.isnan, o != self.val)
+        if isinstance(op, _ast.Eq):
+            return z3.And(z3.Not(self.isnan), o == self.val)
+        raise Unsupported("ordering against a possibly-NaN value")
+
+    pyvc_rcompare = pyvc_compare
+
+    def pyvc_havoc(self, I, nm):
+        return MaybeNaN(I.path.fresh_bool(nm + ".isnan"), I.path.fresh_int(nm))
+
+
+def nan_view(x):
+    """(isnan, value) of a MaybeNaN or a plain integer term"""
+    if isinstance(x, MaybeNaN):
+        return x.isnan, x.val
+    return z3.BoolVal(False), to_term(x)
